@@ -161,6 +161,22 @@ def catalogue():
     add("formula-unparsable", "pair", sub(P, "myform(r,a) = a*exp(-r)", "myform(r,a) = a*exp(-r"), "cfg", "unparsable formula")
     add("formula-unknown-variable", "pair", sub(P, "myform(r,a) = a*exp(-r)", "myform(r,a) = b*exp(-r)"), "cfg", "unknown variable in a formula")
     add("formula-unknown-function", "pair", sub(P, "myform(r,a) = a*exp(-r)", "myform(r,a) = a*nosuch(r)"), "cfg", "unknown function in a formula")
+    # the formula language (exprtk) has reserved words, built-in constants and functions, is case-insensitive, and keeps variables and functions in ONE name
+    # space: a signature that cannot be bound as written is a malformed definition - a configuration error, not a KeyError and not a silent mis-binding
+    F0 = "myform(r,a) = a*exp(-r)"
+    add("formula-parameter-named-like-constant", "pair", sub(P, F0, "myform(r,epsilon) = epsilon*exp(-r)"), "cfg", "parameter named like a built-in constant of the formula language (epsilon)")
+    add("formula-parameter-named-pi", "pair", sub(P, F0, "myform(r,pi) = pi*exp(-r)"), "cfg", "parameter named pi")
+    add("formula-parameter-named-inf", "pair", sub(P, F0, "myform(r,inf) = inf*exp(-r)"), "cfg", "parameter named inf")
+    add("formula-parameter-named-like-function", "pair", sub(P, F0, "myform(r,exp) = exp*r"), "cfg", "parameter named like a built-in function (exp)")
+    add("formula-parameter-reserved-word", "pair", sub(P, F0, "myform(r,if) = if*r"), "cfg", "parameter that is a reserved word (if)")
+    add("formula-parameter-not-an-identifier", "pair", sub(P, F0, "myform(r,2x) = 2x*r"), "cfg", "parameter that is not an identifier (2x)")
+    add("formula-parameter-repeated", "pair", sub(sub(P, F0, "myform(r,a,a) = a*exp(-r)"), "Al-O : myform 2.5", "Al-O : myform 2.5 3.5"), "cfg", "the same parameter name twice in a signature")
+    add("formula-parameters-differ-by-case-only", "pair", sub(sub(P, F0, "myform(r,A,a) = A + 10*a"), "Al-O : myform 2.5", "Al-O : myform 2.5 3.5"), "cfg", "two parameters that differ by case only (the formula language is case-insensitive)")
+    add("formula-parameter-R", "pair", sub(P, F0, "myform(r,R) = R*exp(-r)"), "cfg", "a parameter that differs from the separation variable by case only")
+    add("formula-parameter-named-like-other-form", "pair", sub(P, F0, "myform(r,a) = a*exp(-r)\nother(r,myform) = myform*r"), "cfg", "a parameter named like another custom form")
+    add("formula-parameter-named-like-table-form", "pair", sub(P, F0, "myform(r,tab1) = tab1*exp(-r)"), "cfg", "a parameter named like a table form")
+    add("formula-labels-differ-by-case-only", "pair", sub(P, F0, "myform(r,a) = a*exp(-r)\nMYFORM(r,a) = 10*a"), "cfg", "two custom forms whose labels differ by case only")
+    add("trans-second-is-modifier", "pair", sub(P, T, "trans(as.lj 0.01 3.0, sum(as.constant 0.25, as.constant 0.25))"), "cfg", "a modifier as the second argument of trans")
     add("formula-call-wrong-arity", "pair", sub(P, "myform(r,a) = a*exp(-r)", "myform(r,a) = as.buck(r, a)"), "cfg", "wrong arity in a call")
     return ops
 
@@ -288,9 +304,40 @@ def validation_models(run):
     for k in ["A-B", "AB", "A-B-C", "A - B", "-B", "A-", "Gd3+-O2-"]:
         reqs.append(dict(m="validate", op="key", parts=k.split("-")))
         plan.append(("key", k))
+    # signatures of custom forms: parameter names drawn from a pool with case variants and repeats (reserved words of the formula language are exprtk's own and
+    # are covered by the catalogue); an accepted signature must ALSO bind positionally - the formula is a weighted sum that identifies each argument
+    pool = ["a", "A", "b", "B", "rho", "Rho", "RHO", "c", "x1", "X1", "sigma", "r", "R", "q"]
+    for _ in range(run.n(60, 1500)):
+        names = [run.rng.choice(["r", "r", "r", "x", "R", "sep"])] + [run.rng.choice(pool) for _ in range(run.rng.randint(1, 4))]
+        reqs.append(dict(m="validate", op="signature", names=names))
+        plan.append(("signature", names))
     ans = lean_query(reqs)
     nb = 0
     for (kind, x), a in zip(plan, ans):
+        if kind == "signature":
+            weights = [3 ** i for i in range(len(x))]
+            cfg = TAB_PAIR + "[Potential-Form]\nf(%s) = %s\n[Pair]\nA-B : f %s\n" % (", ".join(x), " + ".join("%d*%s" % (w, n) for w, n in zip(weights, x)),
+                                                                               " ".join("%d.0" % (i + 2) for i in range(1, len(x))))
+            want = "ok" if a == "ok" else "cfg"
+            run.case(key=("validation-model", kind, str(x)), kind="validation-model/" + kind + ("/accepted" if want == "ok" else "/refused"))
+            run.traces += 1
+            try:
+                tab = Configuration().read(io.StringIO(cfg))
+                v = tab.potentials[0].energy(0.5)
+                oc = ("ok", v)
+            except ConfigurationException as e:
+                oc = ("cfg", type(e).__name__)
+            except Exception as e:
+                oc = ("internal:" + type(e).__name__, str(e)[:160])
+            if oc[0].startswith("internal"):
+                run.fail("c16:validation-signature", "signature f(%s): escapes as %s (%s)" % (", ".join(x), oc[0], oc[1]), dict(potable_file=cfg))
+            elif oc[0] != want:
+                run.tie_broken("correspondence", "Atsim.validSignature vs the real signature check", "%r: implementation %s, model %s" % (x, oc[0], want))
+            elif oc[0] == "ok":
+                exp = weights[0] * 0.5 + sum(w * (i + 2.0) for i, w in enumerate(weights[1:], start=1))
+                if abs(oc[1] - exp) > 1e-9:
+                    run.fail("c16:signature-binding", "signature f(%s) is accepted but the arguments are not bound positionally: f evaluates to %r, positional binding gives %r" % (", ".join(x), oc[1], exp), dict(potable_file=cfg))
+            continue
         if kind == "spline":
             cfg = TAB_PAIR + "[Pair]\nA-B : %s\n" % x
             want = "ok" if a == "ok" else "cfg"
